@@ -12,8 +12,12 @@ package datatransfer
 
 //@ interface TransferConfig
 //@   pure EventsCb, TransportOptions
-//@ func datatransfer.FromOptions
-//@   effectfree -- boundary: option closures are applied to a fresh config; only non-nilness of the result is assumed
+//@ type TransferOption
+//@   nonnil . -- input validity: options handed in by the application are non-nil functions
+//@ func datatransfer.FromOptions {C17}
+//@   reads
+//@   loop 0 invariant [applied-in-order] $i >= 0
+//@   ensures [config] result != nil
 
 // ---------------------------------------------------------------------------------------------
 // locks (C20): one strict order on the module's mutex classes; every function under contract declares the classes
